@@ -3,6 +3,8 @@ import Redproxy.Lemmas.PanicFree
 import Redproxy.Model.Socks
 import Redproxy.Model.Http
 import Redproxy.Model.Frames
+import Redproxy.Model.Accept
+import Redproxy.Gen.AcceptSites
 /-!
 # C05 — no remote input can crash the proxy
 
@@ -276,5 +278,52 @@ example : Frames.fromBuffer ([0x52,0x50,0x46,0x4d, 0,0,0,1, 0,7, 0,1, 3,5,97,98,
     .ok { addr := some (.domain [97,98,99] 53), sessionId := 1, body := [0x78] } := by decide
 
 example : Frames.decodeAddress [3] = .err "bad header" := by decide
+
+/-! ## "... or stop it from serving other connections": stalled clients and the accept loops
+
+`Gen.acceptSites` is regenerated from `src/listeners/*.rs` on every run: the awaits each accept loop performs itself
+(outside `tokio::spawn`).  No loop waits for handshake progress of the client it has just taken, hence — in the loop
+model of `Model/Accept.lean` — every client is handed to its own task whatever the clients before it do. -/
+
+def toWait : Gen.LoopAwait → Accept.Wait
+  | .source => .source | .peer => .peer | .squeue => .squeue | .local => .localWait
+
+def siteWaits (site : String × String × List (String × Gen.LoopAwait)) : List Accept.Wait :=
+  site.2.2.map (fun a => toWait a.2)
+
+/-- proof obligation on the regenerated table: no accept loop of any listener waits for one client's handshake -/
+theorem accept_loops_have_no_peer_wait :
+    ∀ site ∈ Gen.acceptSites, Accept.hasPeerWait (siteWaits site) = false := by decide
+
+/-- the table covers the listeners (a translator that finds nothing proves nothing) -/
+theorem accept_loops_cover_listeners :
+    ∀ f ∈ ["src/listeners/http.rs", "src/listeners/socks.rs", "src/listeners/quic.rs", "src/listeners/reverse.rs", "src/listeners/tproxy.rs"],
+      ∃ site ∈ Gen.acceptSites, site.1 = f := by decide
+
+/-- for every listener, every stall pattern of the other clients (any number, any positions) and every client `k`:
+`k` is handed to a task of its own, and is served iff it completes its own handshake -/
+theorem stalled_clients_block_nobody (site) (hs : site ∈ Gen.acceptSites) (cs : List Accept.Stalls) (k : Nat)
+    (hk : k < cs.length) :
+    k ∈ Accept.tasks (siteWaits site) cs 0 ∧ Accept.served (siteWaits site) cs k = !cs[k] := by
+  have h := accept_loops_have_no_peer_wait site hs
+  have hm : k ∈ Accept.tasks (siteWaits site) cs 0 := by
+    rw [Accept.tasks_all _ h]; simp [hk]
+  refine ⟨hm, ?_⟩
+  simp [Accept.served, hm, List.getD_eq_getElem?_getD, List.getElem?_eq_getElem hk]
+
+/-- the loop shape the pre-fix QUIC listener and a TLS handshake in the accept loop have: one stalled client and nobody
+behind it is ever served -/
+theorem peer_wait_in_loop_blocks (ws : List Accept.Wait) (h : Accept.hasPeerWait ws = true)
+    (pre post : List Accept.Stalls) (k : Nat) (hk : pre.length ≤ k) :
+    Accept.served ws (pre ++ true :: post) k = false := by
+  have := Accept.tasks_stuck ws h pre post 0
+  unfold Accept.served
+  cases hc : (Accept.tasks ws (pre ++ true :: post) 0).contains k
+  · simp
+  · have hm := this k (by simpa using hc)
+    omega
+
+example : Accept.served [.source, .peer] [true, false] 1 = false := by decide
+example : Accept.served [.source, .localWait] [true, true, true, false] 3 = true := by decide
 
 end Redproxy.Props.C05
